@@ -4,6 +4,18 @@
 
 int peek_available(void) { return 1; }
 
+/* microseconds of an ares_timeval_t, saturating (deadlines can be absurdly far away) */
+static long long tv_us(const ares_timeval_t *tv)
+{
+  if (tv->sec > 4000000000000LL) {
+    return 4000000000000000000LL;
+  }
+  if (tv->sec < -4000000000000LL) {
+    return -4000000000000000000LL;
+  }
+  return (long long)tv->sec * 1000000LL + (long long)tv->usec;
+}
+
 int peek_earliest_deadline(const ares_channel_t *ch, long long *us_out)
 {
   ares_slist_node_t *n = ares_slist_node_first(ch->queries_by_timeout);
@@ -12,7 +24,7 @@ int peek_earliest_deadline(const ares_channel_t *ch, long long *us_out)
     return 0;
   }
   q       = ares_slist_node_val(n);
-  *us_out = (long long)q->timeout.sec * 1000000LL + (long long)q->timeout.usec;
+  *us_out = tv_us(&q->timeout);
   return 1;
 }
 
@@ -33,7 +45,7 @@ int peek_expired_in_index(const ares_channel_t *ch, long long now_us)
   int                cnt = 0;
   for (n = ares_slist_node_first(ch->queries_by_timeout); n != NULL; n = ares_slist_node_next(n)) {
     const ares_query_t *q  = ares_slist_node_val(n);
-    long long           dl = (long long)q->timeout.sec * 1000000LL + (long long)q->timeout.usec;
+    long long           dl = tv_us(&q->timeout);
     if (dl <= now_us) {
       cnt++;
     }
@@ -44,4 +56,32 @@ int peek_expired_in_index(const ares_channel_t *ch, long long now_us)
 int peek_conn_count(const ares_channel_t *ch)
 {
   return (int)ares_htable_asvp_num_keys(ch->connnode_by_socket);
+}
+
+/* per-query attempt info for the C06 per-attempt wait oracle: fills up to cap entries, returns count */
+struct peek_qinfo { unsigned short qid; long long ts_us; long long deadline_us; unsigned long try_count; int using_tcp; int server_idx; int no_retries; };
+int peek_queries(const ares_channel_t *ch, struct peek_qinfo *out, int cap)
+{
+  ares_slist_node_t *n;
+  int                cnt = 0;
+  for (n = ares_slist_node_first(ch->queries_by_timeout); n != NULL && cnt < cap; n = ares_slist_node_next(n)) {
+    const ares_query_t *q = ares_slist_node_val(n);
+    out[cnt].qid         = q->qid;
+    out[cnt].ts_us       = tv_us(&q->ts);
+    out[cnt].deadline_us = tv_us(&q->timeout);
+    out[cnt].try_count   = (unsigned long)q->try_count;
+    out[cnt].using_tcp   = q->using_tcp ? 1 : 0;
+    out[cnt].no_retries  = q->no_retries ? 1 : 0;
+    out[cnt].server_idx  = (q->conn != NULL && q->conn->server != NULL) ? (int)q->conn->server->idx : -1;
+    cnt++;
+  }
+  return cnt;
+}
+
+size_t peek_num_servers(const ares_channel_t *ch) { return ares_slist_len(ch->servers); }
+
+int peek_channel_opts(const ares_channel_t *ch, long *tries, long *timeout_ms, long *maxtimeout_ms, long *ndots, long *rotate)
+{
+  *tries = (long)ch->tries; *timeout_ms = (long)ch->timeout; *maxtimeout_ms = (long)ch->maxtimeout; *ndots = (long)ch->ndots; *rotate = ch->rotate ? 1 : 0;
+  return 1;
 }
